@@ -11,6 +11,7 @@ import (
 	"github.com/nspcc-dev/neo-go/pkg/core/block"
 	"github.com/nspcc-dev/neo-go/pkg/core/native/nativenames"
 	"github.com/nspcc-dev/neo-go/pkg/core/transaction"
+	"github.com/nspcc-dev/neo-go/pkg/crypto/hash"
 	"github.com/nspcc-dev/neo-go/pkg/crypto/keys"
 	"github.com/nspcc-dev/neo-go/pkg/neotest"
 	"github.com/nspcc-dev/neo-go/pkg/neotest/chain"
@@ -42,6 +43,8 @@ type world struct {
 	wallets                                                []util.Uint160 // deployed Wallet contracts
 	nopay                                                  util.Uint160   // deployed contract without onNEP17Payment
 
+	minted, burned *big.Int // GAS Transfer events with from / to = null of all HALTed executions so far
+
 	nonce      uint32
 	notaryFrom uint32 // first block index at which the designated notary node is effective
 	lastFault  string
@@ -64,15 +67,40 @@ func (w *world) aid(h util.Uint160) int {
 	return id
 }
 
+// pid: the number of a public key on the op lines. The keys of a case are numbered so that the
+// model can order them the way the code does: id/2 = rank of the X coordinate among the case's
+// keys, id%2 = parity of Y (prefix byte 02/03 of the compressed form). With pairwise different X
+// (checked in numberKeys) PublicKey.Cmp is < on the ids, and the byte order of the serialized keys
+// (storage iteration order) is the order of (id%2, id/2).
 func (w *world) pid(p *keys.PublicKey) int {
 	k := string(p.Bytes())
 	if id, ok := w.pubID[k]; ok {
 		return id
 	}
-	id := len(w.pubs)
-	w.pubID[k] = id
-	w.pubs = append(w.pubs, p)
-	return id
+	panic("public key without id")
+}
+
+func (w *world) numberKeys(ks []*keys.PublicKey) {
+	sorted := slices.Clone(ks)
+	slices.SortFunc(sorted, func(a, b *keys.PublicKey) int { return a.X.Cmp(b.X) })
+	for i, p := range sorted {
+		if i > 0 && sorted[i-1].X.Cmp(p.X) == 0 {
+			panic("two keys with the same X coordinate")
+		}
+		b := p.Bytes()
+		w.pubID[string(b)] = 2*i + int(b[0]-2)
+		w.pubs = append(w.pubs, p)
+	}
+}
+
+// pubByID is the inverse of pid.
+func (w *world) pubByID(id int) *keys.PublicKey {
+	for _, p := range w.pubs {
+		if w.pid(p) == id {
+			return p
+		}
+	}
+	return nil
 }
 
 func detKey(r *prng.R) *keys.PrivateKey {
@@ -101,7 +129,8 @@ func multisigSigner(m int, ks []*keys.PrivateKey) neotest.Signer {
 }
 
 func newWorld(t *tb, r *prng.R, C, V, nUsers, nExtraCands int) *world {
-	w := &world{t: t, r: r, C: C, V: V, accID: map[util.Uint160]int{}, pubID: map[string]int{}, signer: map[util.Uint160]neotest.Signer{}}
+	w := &world{t: t, r: r, C: C, V: V, accID: map[util.Uint160]int{}, pubID: map[string]int{}, signer: map[util.Uint160]neotest.Signer{},
+		minted: new(big.Int), burned: new(big.Int)}
 	for i := 0; i < C; i++ {
 		w.standby = append(w.standby, detKey(r))
 	}
@@ -141,8 +170,13 @@ func newWorld(t *tb, r *prng.R, C, V, nUsers, nExtraCands int) *world {
 	for i := 0; i < nExtraCands; i++ {
 		w.cands = append(w.cands, detKey(r))
 	}
+	w.aid(w.policyH)
+	var allPubs []*keys.PublicKey
 	for _, k := range w.cands {
-		w.pid(k.PublicKey())
+		allPubs = append(allPubs, k.PublicKey())
+	}
+	w.numberKeys(allPubs)
+	for _, k := range w.cands {
 		acc := wallet.NewAccountFromPrivateKey(k)
 		w.aid(acc.ScriptHash())
 		w.signer[acc.ScriptHash()] = neotest.NewSingleSigner(acc)
@@ -163,6 +197,49 @@ func newWorld(t *tb, r *prng.R, C, V, nUsers, nExtraCands int) *world {
 		w.aid(nk.GetScriptHash())
 	}
 	return w
+}
+
+// initLine: the configuration of the case for the model.
+func (w *world) initLine(attrFee int64, gasInit int64) string {
+	var sb, ka, ms []string
+	for _, k := range w.standby {
+		sb = append(sb, fmt.Sprint(w.pid(k.PublicKey())))
+	}
+	for _, k := range w.cands {
+		ka = append(ka, fmt.Sprintf("%d:%d", w.pid(k.PublicKey()), w.aid(k.GetScriptHash())))
+	}
+	// every majority multi-signature account of C keys of the case: the possible committee addresses
+	var rec func(start int, cur []*keys.PrivateKey)
+	rec = func(start int, cur []*keys.PrivateKey) {
+		if len(cur) == w.C {
+			pubs := make(keys.PublicKeys, len(cur))
+			for i := range cur {
+				pubs[i] = cur[i].PublicKey()
+			}
+			script, err := smartcontract.CreateMajorityMultiSigRedeemScript(pubs.Copy())
+			if err != nil {
+				panic(err)
+			}
+			ids := make([]int, len(pubs))
+			for i := range pubs {
+				ids[i] = w.pid(pubs[i])
+			}
+			slices.Sort(ids)
+			e := fmt.Sprint(w.aid(hash.Hash160(script)))
+			for _, id := range ids {
+				e += fmt.Sprintf(":%d", id)
+			}
+			ms = append(ms, e)
+			return
+		}
+		for i := start; i < len(w.cands); i++ {
+			rec(i+1, append(slices.Clone(cur), w.cands[i]))
+		}
+	}
+	rec(0, nil)
+	return fmt.Sprintf("init %d %d %d %d %d %d %d %d %d %d %s %s %s", w.aid(w.notaryH), w.aid(w.neoH), w.aid(w.gasH), w.aid(w.policyH),
+		w.C, w.V, attrFee, w.aid(w.treasuryH), w.aid(w.valSigner.ScriptHash()), gasInit,
+		strings.Join(sb, ","), strings.Join(ka, ","), strings.Join(ms, ","))
 }
 
 // committeeSigner builds the majority multisig signer of the CURRENT committee (all
@@ -187,6 +264,35 @@ func (w *world) committeeSigner() neotest.Signer {
 		ks = append(ks, found)
 	}
 	return multisigSigner(smartcontract.GetMajorityHonestNodeCount(len(ks)), ks)
+}
+
+// committeeSignerAt: the signer of the committee in office in the NEXT block: when that block starts an
+// epoch it is the committee elected over the current state (electExpected), else the current one.
+func (w *world) committeeSignerAt(st *absState) neotest.Signer {
+	if (st.height+1)%uint32(w.C) != 0 {
+		return w.committeeSigner()
+	}
+	var ks []*keys.PrivateKey
+	for _, c := range w.electExpected(st) {
+		for _, k := range w.cands {
+			if k.PublicKey().Equal(c.pub) {
+				ks = append(ks, k)
+			}
+		}
+	}
+	if len(ks) != w.C {
+		panic("expected committee with unknown key")
+	}
+	return multisigSigner(smartcontract.GetMajorityHonestNodeCount(len(ks)), ks)
+}
+
+func (w *world) sortedBlocked(st *absState) []util.Uint160 {
+	var hs []util.Uint160
+	for h := range st.blocked {
+		hs = append(hs, h)
+	}
+	slices.SortFunc(hs, func(a, b util.Uint160) int { return w.aid(a) - w.aid(b) })
+	return hs
 }
 
 // newTx builds and signs a transaction with all signers Global.
